@@ -1169,7 +1169,7 @@ float bufr_descriptor_get_location ( BufrDescriptor *cb, int desc )
  */
 int bufr_print_dscptr_value( char *outstr, BufrDescriptor *cb )
    {
-   int32_t    ival;
+   int64_t    ival;
 
    if (outstr == NULL) return 0;
 
@@ -1181,7 +1181,7 @@ int bufr_print_dscptr_value( char *outstr, BufrDescriptor *cb )
          bufr_print_scaled_value( outstr, cb->value, cb->encoding.scale );
          break;
       case TYPE_FLAGTABLE :
-         ival = bufr_value_get_int32( cb->value );
+         ival = bufr_value_get_int64( cb->value ); /* a flag table may be 32 bits wide or more */
          if (ival < 0)
             {
             strcpy( outstr, "MSNG" );
